@@ -23,7 +23,7 @@ type c06 struct{}
 
 func init() {
 	register(c06{})
-	expectedProbes["C06"] = []string{"x-order-tie", "x-order-string", "x-order-non-integer", "name-needs-escaping", "builder-value", "order-checked", "kind:swagger", "kind:schema", "map-order-mattered-nowhere"}
+	expectedProbes["C06"] = []string{"x-order-tie", "x-order-string", "x-order-non-integer", "name-needs-escaping", "builder-value", "order-checked", "kind:swagger", "kind:schema", "map-order-mattered-nowhere", "more-than-12-ordered-properties", "$schema-keyword"}
 }
 
 func (c06) ID() string { return "C06" }
@@ -68,10 +68,14 @@ func genOrderedSchema(r *sim.RNG, depth int, uniq *int) map[string]interface{} {
 		}
 		m := map[string]interface{}{}
 		ties := r.Bool(0.5)
-		for i := 0; i < 1+r.Intn(5); i++ {
+		n := 1 + r.Intn(5)
+		if depth == 0 && r.Intn(6) == 0 {
+			n = 13 + r.Intn(30) // large maps: sort.Sort leaves insertion sort above 12 elements
+		}
+		for i := 0; i < n; i++ {
 			name := advNames[r.Intn(len(advNames))]
-			if r.Bool(0.4) {
-				name = fmt.Sprintf("p%d", r.Intn(9))
+			if r.Bool(0.4) || n > 12 {
+				name = fmt.Sprintf("p%02d", r.Intn(3*n))
 			}
 			var c map[string]interface{}
 			if depth < 2 && r.Bool(0.25) {
@@ -92,6 +96,12 @@ func genOrderedSchema(r *sim.RNG, depth int, uniq *int) map[string]interface{} {
 	}
 	if r.Bool(0.2) {
 		s["unknownKeyword"+fmt.Sprint(r.Intn(3))] = map[string]interface{}{"k": advNames[r.Intn(len(advNames))]}
+	}
+	if r.Bool(0.15) {
+		s["$schema"] = []string{"http://example.com/meta/schema", "http://json-schema.org/draft-04/schema"}[r.Intn(2)] // a trailing "#" is dropped by the URL codec (C13 territory)
+	}
+	if r.Bool(0.1) {
+		s["id"] = fmt.Sprintf("http://example.com/schemas/s%d.json", *uniq)
 	}
 	return s
 }
@@ -395,9 +405,17 @@ func (c06) Run(sc *Scenario) *Verdict {
 		scan = func(x interface{}, key string) {
 			switch c := x.(type) {
 			case map[string]interface{}:
+				if _, has := c["$schema"]; has {
+					v.probe("$schema-keyword")
+					classes["$schema"] = true
+				}
 				if key == "properties" || key == "patternProperties" {
 					if len(c) > 1 {
 						multi = true
+					}
+					if len(c) > 12 {
+						v.probe("more-than-12-ordered-properties")
+						classes["big"] = true
 					}
 					seen := map[string]bool{}
 					for name, pv := range c {
